@@ -59,10 +59,15 @@ def negate(t):
     return ast.UnaryOp(op=ast.Not(), operand=t)
 
 
+MIRROR = {ast.Lt: ast.Gt, ast.Gt: ast.Lt, ast.LtE: ast.GtE, ast.GtE: ast.LtE, ast.Eq: ast.Eq, ast.NotEq: ast.NotEq}
+
+
 def positive(t):
-    """negations pushed to the leaves"""
+    """negations pushed to the leaves; a literal on the left of a comparison goes to the right (`0 < x` -> `x > 0`)"""
     if isinstance(t, ast.UnaryOp) and isinstance(t.op, ast.Not):
         return negate(t.operand)
+    if isinstance(t, ast.Compare) and len(t.ops) == 1 and isinstance(t.left, ast.Constant) and not isinstance(t.comparators[0], ast.Constant) and type(t.ops[0]) in MIRROR:
+        return ast.Compare(left=t.comparators[0], ops=[MIRROR[type(t.ops[0])]()], comparators=[t.left])
     if isinstance(t, ast.BoolOp):
         vals = []
         for v in t.values:
@@ -1025,8 +1030,8 @@ class _Small(ast.NodeTransformer):
         out = []
         for st in b:
             if isinstance(st, ast.Assign) and len(st.targets) == 1 and isinstance(st.targets[0], ast.Tuple) and isinstance(st.value, ast.Tuple) \
-                    and len(st.targets[0].elts) == len(st.value.elts) and all(isinstance(t, ast.Name) for t in st.targets[0].elts) \
-                    and not ({t.id for t in st.targets[0].elts} & {x.id for v in st.value.elts for x in ast.walk(v) if isinstance(x, ast.Name)}):
+                    and len(st.targets[0].elts) == len(st.value.elts) and all(isinstance(t, (ast.Name, ast.Attribute)) for t in st.targets[0].elts) \
+                    and not ({txt(t) for t in st.targets[0].elts} & {txt(x) for v in st.value.elts for x in ast.walk(v) if isinstance(x, (ast.Name, ast.Attribute))}):
                 for t, v in zip(st.targets[0].elts, st.value.elts):
                     out.append(ast.copy_location(ast.Assign(targets=[t], value=v, lineno=st.lineno), st))
                 continue
